@@ -4,8 +4,10 @@ package main
 
 import (
 	"bufio"
+	"bytes"
 	"fmt"
 	"math/rand"
+	"strconv"
 	"strings"
 
 	gowarc "github.com/nlnwa/gowarc/v2"
@@ -170,5 +172,49 @@ func runValidate(toks []string) (string, string) {
 	if p != "" {
 		return "PANIC", "-"
 	}
+	// "under warn ... the record is still returned": the same header set through the parser
+	if spec == 1 && strings.HasPrefix(obs, "ok;") {
+		if why := warnStillReturns(pairs, vid, unk); why != "" {
+			return obs, "FAIL:warn-drops-record:" + why
+		}
+	}
 	return obs, "-"
+}
+
+// warnStillReturns sends the header set through Unmarshal under spec=warn (syntax warn, block
+// ignore): when header validation itself returns the record, so does the parser.
+func warnStillReturns(pairs [][2]string, vid, unk int) string {
+	version := "1.1"
+	if vid == 1 {
+		version = "1.0"
+	} else if vid != 2 {
+		return ""
+	}
+	blockLen := 0
+	for _, f := range pairs {
+		if strings.TrimSpace(f[1]) != f[1] || strings.ContainsAny(f[0]+f[1], "\r\n") || strings.Contains(f[1], "=?") || f[0] == "" || strings.ContainsAny(f[0], ": \t") {
+			return "" // not a header the parser reads back as given
+		}
+		if strings.EqualFold(f[0], "Content-Length") {
+			if n, err := strconv.Atoi(f[1]); err == nil && n > 0 && n <= 64 {
+				blockLen = n
+			}
+		}
+	}
+	data := serializeRecord(version, pairs, bytes.Repeat([]byte("b"), blockLen), "\r\n")
+	var rec gowarc.WarcRecord
+	var err error
+	p := catch(func() {
+		rec, _, _, err = gowarc.NewUnmarshaler(gowarc.VerifPolicies(1, 1, unk, 0), gowarc.WithAddMissingDigest(false)).Unmarshal(bufio.NewReader(bytes.NewReader(data)))
+	})
+	if rec != nil {
+		rec.Close()
+	}
+	if p != "" {
+		return "the parser panics on it: " + p
+	}
+	if rec == nil && err != nil {
+		return "header validation returns the record under warn, Unmarshal returns only an error: " + err.Error()
+	}
+	return ""
 }
